@@ -10,5 +10,5 @@ HARNESSES = [
     H("c18_streams::c18_memory_protection_table", desc="permission -> protection table, all 32 values"),
     H("c18_streams::c18_direct_auxv_precedence", desc="caller-supplied auxv values: 0 = unset, others kept; completeness"),
     H("c18_streams::c18_write_file_is_a_byte_copy", desc="raw stream == bytes returned by the file read", loops={"extend_with": 20}),
-    H("c02_dso_debug::c18_dso_two_objects", desc="linker debug stream for a 2-object chain mirrors target memory", timeout=3400, est_gb=12, mem_gb=30, loops={"extend_with": 60, "position": 260}, tier="thorough"),
+    H("c02_dso_debug::c18_dso_two_objects", desc="linker debug stream for a 2-object chain mirrors target memory", timeout=3400, est_gb=12, mem_gb=30, loops={"extend_with": 60, "position": 260}, tier="thorough", fs_array=4096),
 ]
